@@ -393,6 +393,7 @@ class ESME:
         )
 
         pdu: bytes = smpp_message.pdu()
+        writer: Optional[StreamWriter] = self._writer  # The connection this PDU is meant for
         await self.hook.sending(smpp_message, pdu, self.client_id)  # Call user's hook
 
         # We use writer.drain() which is a flow control method that interacts with the
@@ -401,9 +402,9 @@ class ESME:
         # and writing can be resumed.
         # When there is nothing to wait for, the drain() returns immediately.
         # ref: https://docs.python.org/3/library/asyncio-stream.html#asyncio.StreamWriter.drain
-        writer: Optional[StreamWriter] = self._writer
-        if writer is None:
-            # The connection was dropped while the hook was running
+        if writer is None or writer is not self._writer:
+            # The connection was dropped (and maybe replaced by a new one, which is not
+            # bound yet) while the hook was running
             raise ConnectionError('Not connected to SMSC')
         writer.write(pdu)
         async with self._drain_lock:
